@@ -890,6 +890,60 @@ func (g *gen) schema() (Decls, string) {
 			add("up", g.upward())
 			g.upwards++
 		}
+		if r.Chance(0.2) {
+			// a function that fails on some records (verif_nonempty on an absent / empty value,
+			// verif_pick out of range) with ignore_error inside a TEMPLATE body, referenced as a
+			// member and as an array element; and the same call twice on one node, lenient
+			// (ignore_error) first and strict second: they must not share a cache entry
+			nm := r.PickStr("item", "a", "b", g.name())
+			call := func(ignore bool) *GDecl {
+				if r.Chance(0.7) {
+					return &GDecl{Func: &GFunc{Name: "verif_nonempty", Args: []*GDecl{{XPath: sp(nm + "[1]")}}, IgnoreError: ignore}}
+				}
+				return &GDecl{Func: &GFunc{Name: "verif_pick", Args: []*GDecl{{XPath: sp("@id"), Type: sp("int")}, {Const: sp("p")}, {Const: sp("q")}}, IgnoreError: ignore}}
+			}
+			body := call(true)
+			if r.Chance(0.4) {
+				body = &GDecl{HasObject: true, Object: []KV{{"f", call(true)}, {"k", &GDecl{Const: sp("k")}}}}
+			}
+			ds["tign"] = body
+			add("ign", &GDecl{Template: sp("tign")})
+			if r.Chance(0.5) {
+				add("igna", &GDecl{HasArray: true, Array: []*GDecl{{Template: sp("tign")}, {Const: sp("z")}}})
+			}
+			if r.Chance(0.6) {
+				lenient := call(true)
+				strict := *lenient
+				sf := *lenient.Func
+				sf.IgnoreError = false
+				strict.Func = &sf
+				add("ig1", lenient)
+				add("ig2", &strict)
+			}
+		}
+		if r.Chance(0.2) {
+			// an xpath_dynamic whose declaration FAILS to evaluate (swallowed: the carrier is just
+			// omitted) next to the textually identical declaration as an ordinary member evaluated
+			// later on the same node, where the same failure must fail the record
+			var dyn *GDecl
+			switch r.Pick(4) {
+			case 0:
+				// several matches on most records; where there is exactly one, its text (an
+				// attribute value: a name or an integer) is a harmless xpath
+				dyn = &GDecl{XPath: sp(r.PickStr("item/@k", "*/@k", "*/@id", "*/*/@k"))}
+			case 1:
+				dyn = &GDecl{External: sp("missing")}
+			case 2:
+				dyn = &GDecl{Const: sp(r.PickStr("x", "0x1F", "1_000")), Type: sp("int")} // failing cast
+			default:
+				dyn = &GDecl{Func: &GFunc{Name: "verif_nonempty", Args: []*GDecl{{XPath: sp("nosuch")}}}}
+			}
+			add("d1", &GDecl{XDyn: dyn, Keep: r.Chance(0.3)})
+			add("d2", dyn)
+			if r.Chance(0.3) {
+				add("d0", &GDecl{HasArray: true, Array: []*GDecl{{XDyn: dyn}, {Const: sp("k")}}})
+			}
+		}
 		if r.Chance(0.25) {
 			// external properties, also cast and below an object
 			ex := &GDecl{External: sp(r.PickStr("ext1", "ext2", "ext3", "ext4", "ext5"))}
